@@ -35,12 +35,14 @@ def geometry(draw, max_fchans=96, max_tchans=24, min_fchans=1, min_tchans=1,
     fch1 = min(fch1, df * 2.0 ** 40)
     fch1 = max(fch1, 4.0 * fchans * df + 1.0)
     ascending = draw(st.booleans())
+    # the flag may arrive as numpy.bool_ (e.g. from `foff > 0`) or as 0/1
+    asc_form = draw(st.sampled_from(['bool', 'bool', 'bool', 'np_bool', 'int']))
     t_start = draw(st.sampled_from([0.0, 1.0e3, 1.7e9, 1.6e9 + 0.25, 59000.5 * 86400.0 - 3506716800.0 + 1.5e9]))
     route = draw(st.sampled_from(list(routes)))
     unit_f = draw(st.sampled_from(['Hz', 'kHz', 'MHz']))
     unit_t = draw(st.sampled_from(['s', 'ms']))
     return dict(fchans=fchans, tchans=tchans, df=df, dt=dt, fch1=fch1, ascending=ascending,
-                t_start=t_start, route=route, unit_f=unit_f, unit_t=unit_t)
+                t_start=t_start, route=route, unit_f=unit_f, unit_t=unit_t, asc_form=asc_form)
 
 
 def make_frame(stg, g, data=None, seed=None, source_name=None):
@@ -48,6 +50,9 @@ def make_frame(stg, g, data=None, seed=None, source_name=None):
     import numpy as np
     from astropy import units as u
     kw = dict(t_start=g['t_start'])
+    form = g.get('asc_form', 'bool')
+    asc = np.bool_(g['ascending']) if form == 'np_bool' else (int(g['ascending']) if form == 'int' else bool(g['ascending']))
+    g = dict(g, ascending=asc)
     if source_name is not None:
         kw['source_name'] = source_name
     route = g.get('route', 'sizes')
